@@ -9,6 +9,7 @@ import (
 	"encoding/hex"
 	"flag"
 	"fmt"
+	"math/big"
 	"os"
 	"sort"
 	"strings"
@@ -44,14 +45,15 @@ type scenario struct {
 
 // world is a scenario made concrete: the session description plus what the oracles need.
 type world struct {
-	sc    scenario
-	spec  *sess.Spec
-	ids   []party.ID
-	kind  string // sign | keygen | refresh | presign | xor
-	pub   ref.Pt // group key (sign / refresh / presign)
-	msg   []byte
-	seq   []drv.Delivery
-	final int
+	sc       scenario
+	spec     *sess.Spec
+	ids      []party.ID
+	kind     string // sign | keygen | refresh | presign | xor
+	pub      ref.Pt // group key (sign / refresh / presign)
+	msg      []byte
+	seq      []drv.Delivery
+	final    int
+	oldShare map[party.ID]*big.Int // doerner-refresh: the shares before the refresh
 }
 
 var msg32 = []byte("0123456789abcdef0123456789abcdef")
@@ -138,6 +140,17 @@ func build0(sc scenario) (*world, error) {
 		}
 		w.kind, w.spec = "sign", sess.DoernerSign(k.R, k.S, "a", "b", w.msg)
 		w.pub, err = oracle.Pt(k.R.Public)
+	case "doerner-refresh":
+		k, e := kmat.Doerner()
+		if e != nil {
+			return nil, e
+		}
+		// fresh copies: the refresh is handed objects no other scenario uses
+		r2, s2 := *k.R, *k.S
+		r2.SecretShare, s2.SecretShare = sess.Group.NewScalar().Set(k.R.SecretShare), sess.Group.NewScalar().Set(k.S.SecretShare)
+		w.kind, w.spec = "refresh2", sess.DoernerRefresh(&r2, &s2, "a", "b")
+		w.oldShare = map[party.ID]*big.Int{"a": oracle.Sc(k.R.SecretShare), "b": oracle.Sc(k.S.SecretShare)}
+		w.pub, err = oracle.Pt(k.R.Public)
 	case "cmp-keygen":
 		w.kind, w.spec = "keygen", sess.CMPKeygen(ids, sc.T)
 	case "cmp-refresh":
@@ -201,6 +214,7 @@ func scenarios(check string) []scenario {
 	add("frost-sign-taproot", 3, 1, 0)
 	add("doerner-keygen", 2, 1, 1)
 	add("doerner-sign", 2, 1, 1)
+	add("doerner-refresh", 2, 1, 1)
 	add("cmp-presign-online", 2, 1, 1)
 	if check == "C04" {
 		// state-level deviations of a presigner (its gamma / k / x / chi / delta shares shifted while its proofs stay valid)
